@@ -875,6 +875,16 @@ impl<'e, 'd> World<'e, 'd> {
         tags.dedup();
         let mut h = Fnv::new();
         let mut errs = 0;
+        // Each table_data call is a linear directory search in the library; fetching every
+        // tag of a (corrupt) 65535-entry directory would make this op quadratic by the
+        // harness' own doing, so only a bounded sample of the tags is fetched.
+        let total_tags = tags.len();
+        if tags.len() > 96 {
+            let tail = tags.split_off(tags.len() - 16);
+            tags.truncate(80);
+            tags.extend(tail);
+        }
+        h.write_u64(total_tags as u64);
         for t in &tags {
             h.write_u64(u64::from(*t));
             match provider.table_data(*t) {
@@ -890,7 +900,7 @@ impl<'e, 'd> World<'e, 'd> {
         OpOut::ok(format!(
             "flavour={:08x} tables={} errs={} fnv={:016x}",
             provider.sfnt_version(),
-            tags.len(),
+            total_tags,
             errs,
             h.finish()
         ))
